@@ -7,20 +7,24 @@
 EXTENDS QVecDefs
 
 CONSTANTS Quats, Bs, Hkls,
-          Bug        \* "none" | "order" | "no_rotation"
+          Bug        \* "none" | "order" | "no_rotation" | "stale_rotation"
 
-VARIABLES qr, qu, B
-vars == <<qr, qu, B>>
+VARIABLES qr, qu, B,
+          rused      \* the goniometer rotation the implementation actually uses when it inverts (history):
+                     \* always qr, unless something derived from an earlier call is reused (Bug "stale_rotation":
+                     \* the inverse is remembered per UB, so turning the goniometer alone goes unnoticed)
+vars == <<qr, qu, B, rused>>
 
 (* implementation-shaped matrix that gets inverted *)
 IMat == IF Bug = "order" THEN MatMul(MatMul(QuatMat(qu), QuatMat(qr)), B)
         ELSE IF Bug = "no_rotation" THEN MatScale(QuatN(qr), UBNum(qu, B))
-        ELSE MatMul(QuatMat(qr), UBNum(qu, B))          \* R * (U B): what hkl_vec_from_Q_vec forms
+        ELSE MatMul(QuatMat(rused), UBNum(qu, B))       \* R * (U B): what hkl_vec_from_Q_vec forms
+IDen == QuatN(rused) * QuatN(qu)
 
-Init == qr \in Quats /\ qu \in Quats /\ B \in Bs
-Goniometer == \E q \in Quats : qr' = q /\ UNCHANGED <<qu, B>>
-Orient     == \E q \in Quats : qu' = q /\ UNCHANGED <<qr, B>>
-Lattice_   == \E M \in Bs : B' = M /\ UNCHANGED <<qr, qu>>
+Init == qr \in Quats /\ qu \in Quats /\ B \in Bs /\ rused = qr
+Goniometer == \E q \in Quats : qr' = q /\ rused' = (IF Bug = "stale_rotation" THEN rused ELSE q) /\ UNCHANGED <<qu, B>>
+Orient     == \E q \in Quats : qu' = q /\ rused' = qr /\ UNCHANGED <<qr, B>>
+Lattice_   == \E M \in Bs : B' = M /\ rused' = qr /\ UNCHANGED <<qr, qu>>
 Next == Goniometer \/ Orient \/ Lattice_
 Spec == Init /\ [][Next]_vars
 
@@ -30,7 +34,7 @@ NonSingular == Det3(B) # 0 /\ Det3(RUBNum(qr, qu, B)) # 0
 (* hkl = Solve(R UB, Q) for Q = R U B hkl *)
 HklInverse ==
     \A h \in Hkls :
-        Solve(IMat, RUBDen(qr, qu), QLabNum(qr, qu, B, h), RUBDen(qr, qu)) = RatVec(h, 1)
+        Solve(IMat, IDen, QLabNum(qr, qu, B, h), RUBDen(qr, qu)) = RatVec(h, 1)
 
 (* UB = U * B, and (R U) B = R (U B) *)
 UBProduct == /\ RUBNum(qr, qu, B) = MatMul(QuatMat(qr), UBNum(qu, B))
@@ -40,6 +44,18 @@ UBProduct == /\ RUBNum(qr, qu, B) = MatMul(QuatMat(qr), UBNum(qu, B))
 RotationKeepsNorm ==
     \A h \in Hkls :
         Norm2(QLabNum(qr, qu, B, h)) = QuatN(qr) * QuatN(qr) * Norm2(MatVec(UBNum(qu, B), h))
+
+(* whatever happened before, the rotation used is the current one *)
+NoHistory == rused = qr
+
+(* the coordinate-graph route beams -> Q -> hkl: lambda * hkl = Solve(R UB, e_i - e_f) solves     *)
+(* R UB x = e_i - e_f exactly, for every pair of graph beams                                      *)
+RatDot(row, x) == RatAdd(RatAdd(RatMul(<<row[1], 1>>, x[1]), RatMul(<<row[2], 1>>, x[2])), RatMul(<<row[3], 1>>, x[3]))
+GraphRoute ==
+    \A b1 \in GInc, b2 \in GSc :
+        LET x == HklTimesLambda(qr, qu, B, b1, b2)
+            A == RUBNum(qr, qu, B)
+        IN  \A i \in 1..3 : RatDot(A[i], x) = RatMul(QDir(b1, b2)[i], <<RUBDen(qr, qu), 1>>)
 
 (* split / reassemble of the hkl vector *)
 Lossless == \A h \in Hkls : Join(Split(h)) = h /\ Split(h).x = h[1] /\ Split(h).y = h[2] /\ Split(h).z = h[3]
